@@ -79,6 +79,7 @@ var verbose bool
 var activeKF *KnownFindings
 var activeProp string
 var activeRepo = "/repo"
+var mustFail []seedResult
 
 type checkResult struct {
 	vcs        []*VC
@@ -152,6 +153,10 @@ func cmdCheck(args []string) int {
 		cfg.raceTimeoutS = 300
 	}
 	res := runProperty(prop, ip, repo, only, cfg)
+	if tier == "thorough" && only == "" && repo == repoDirDefault() && os.Getenv("RVC_NO_SEEDS") == "" {
+		// the must-fail corpus for this property (each run checks a scratch worktree, never /repo)
+		mustFail, _ = runSeeds([]string{prop}, 2)
+	}
 	res.wall = time.Since(t0).Seconds()
 	return report(prop, tier, seed, ip, res, only != "")
 }
@@ -461,6 +466,7 @@ func report(prop, tier string, seed int, ip *InvProp, res *checkResult, partial 
 			"solver_seconds": solverSecs,
 			"back_end":     "SMT (z3-new incremental per function; z3-new / z3 / cvc5 raced on what remains)",
 			"bounded":      bounded,
+			"must_fail":    mustFail,
 		},
 		"assumptions": assumptions,
 	}
@@ -470,6 +476,11 @@ func report(prop, tier string, seed int, ip *InvProp, res *checkResult, partial 
 	}
 	for _, l := range kfLines {
 		fmt.Println(l)
+	}
+	for _, r := range mustFail {
+		if !r.OK {
+			fmt.Printf("SELFTEST-MISS: seeded change %s (breaks %s) is no longer detected by this check\n", r.Seed, r.Property)
+		}
 	}
 	fmt.Printf("%s: %d obligations, %d discharged, %d functions, covers %d/%d, %.1fs\n", prop, total, discharged, len(funcs), coversOK, covers, res.wall)
 	if len(viols) == 0 {
